@@ -10,6 +10,7 @@ import (
 	_ "github.com/crossplane/crossplane/verifsim/props/c06"
 	_ "github.com/crossplane/crossplane/verifsim/props/c12"
 	_ "github.com/crossplane/crossplane/verifsim/props/c13"
+	_ "github.com/crossplane/crossplane/verifsim/props/c14"
 )
 
 // TestWorker is the single entry point of the harness binary; behaviour is
